@@ -23,7 +23,7 @@ META = {
     "design_ref": "DESIGN.md 4 (C09), design/C09.md",
 }
 
-GEN_MODULES = ["Gen/Mappers.v", "Gen/Options.v"]
+GEN_MODULES = ["Gen/Mappers.v", "Gen/Options.v", "Gen/Registry.v"]
 
 
 def coq_str(s):
@@ -425,13 +425,104 @@ def sub_options(c, ctx):
     ctx.model_mon_bad_options = [case_line(byid[i]) for i in model_mon_bad[:3]]
 
 
+
+# ---------------------------------------------------------------------------------------------- (iii) registry
+REGISTRY_EVAL = """From Coq Require Import List NArith ZArith String Bool.
+From GV Require Import Base.Ints Model.Registry Gen.Registry.
+Import ListNotations. Local Open Scope N_scope.
+Definition known : list (list N) := [[101;100;50;53;53;49;57]; [99;48;57;116;121;112;101;56]].
+Definition cases : list (N * list N * (N * N)) := [%s].
+Definition model (b : list N) := uobs (unmarshal unmarshal_len_guard registry_prefix_size known b).
+Definition corr_bad := Eval vm_compute in flat_map (fun r => let '(id, b, (k, n)) := r in
+  let m := model b in if N.eqb (fst m) k && N.eqb (snd m) n then [] else [(id, fst m)]) cases.
+Definition model_panics := Eval vm_compute in flat_map (fun r => let '(id, b, _) := r in
+  if N.eqb (fst (model b)) 0 then [(id, 0)] else []) cases.
+Print corr_bad. Print model_panics.
+"""
+
+
+def gen_registry_inputs(c):
+    rng = c.rng
+    prefixes = [b"ed25519\x00", b"c09type8", b"ed25519x", b"\x00" * 8, b"ed2551\x00\x00", b"unknown\x00", b"\x00ed25519"]
+    out = [b""]
+    for p in prefixes:
+        for k in range(0, 9):
+            out.append(p[:k])
+        for extra in (0, 1, 31, 32, 33, 64):
+            out.append(p + bytes(rng.below(256) for _ in range(extra)))
+    for _ in range(150 if c.tier == "quick" else 5000):
+        n = rng.below(48)
+        if rng.chance(1, 2):
+            b = rng.choice(prefixes)[:n] + bytes(rng.below(256) for _ in range(max(0, n - 8)))
+        else:
+            b = bytes(rng.below(256) if rng.chance(3, 4) else 0 for _ in range(n))
+        out.append(b)
+    seen, uniq = set(), []
+    for b in out:
+        if b not in seen:
+            seen.add(b)
+            uniq.append(b)
+    return uniq
+
+
+def sub_registry(c, ctx):
+    inputs = gen_registry_inputs(c)
+    ro = getattr(ctx, "replay_obj", None)
+    if ro and ro.get("sub") == "registry" and "input_hex" in ro:
+        inputs.append(bytes.fromhex(ro["input_hex"]))
+    rc, out, err = c.run_bin(ctx.binary, ["registry"], stdin="\n".join(b.hex() or "-" for b in inputs) + "\n")
+    lines = out.splitlines()
+    if rc != 0 or len(lines) != len(inputs):
+        c.fail_obligation("harness-run registry", "rc=%s lines=%d/%d %s" % (rc, len(lines), len(inputs), err[-400:]))
+        return
+    obs = []
+    for l in lines:
+        f = l.split()
+        obs.append((0, 0) if f[0] == "P" else (1, 0) if f[0] == "E" else (2, int(f[1])))
+    c.coverage["registry"] = {
+        "evaluations": len(inputs), "distinct_nontrivial": sum(1 for o in obs if o[0] == 2) + sum(1 for b in inputs if len(b) < 8),
+        "rule": "byte strings of length 0..72: every proper prefix of 7 type prefixes (registered, full width, unknown, zero, shifted), "
+                "registered prefixes + 0/1/31/32/33/64 key bytes, random strings; non-trivial = shorter than the prefix or delegated",
+        "lengths_below_prefix": sum(1 for b in inputs if len(b) < 8), "delegated": sum(1 for o in obs if o[0] == 2),
+        "errors": sum(1 for o in obs if o[0] == 1), "panics": sum(1 for o in obs if o[0] == 0),
+        "traces_validated_against_impl": len(inputs),
+    }
+    c.samples += [{"registry_input_hex": inputs[i].hex(), "observed": obs[i]} for i in (1, 12, len(inputs) // 2)]
+    # monitor on the implementation: Unmarshal returns a key or an error for every byte string, never panics
+    panics = [i for i, o in enumerate(obs) if o[0] == 0]
+    for i in panics[:1]:
+        b = inputs[i]
+        p = subprocess.run([ctx.binary, "registry-one", b.hex() or "-"], stdout=subprocess.PIPE, stderr=subprocess.PIPE, text=True,
+                           env=vcheck.goenv(), timeout=60)
+        c.report("registry-unmarshal-panic-len-%s" % ("lt8" if len(b) < 8 else "ge8"),
+                 "real Registry.Unmarshal panics on the %d-byte input %s" % (len(b), b.hex() or "(empty)"),
+                 {"sub": "registry", "input_hex": b.hex(), "how": "bin/h_c09 registry-one %s" % (b.hex() or "-"),
+                  "replay": {"exit_status": p.returncode, "stderr_head": p.stderr.strip().splitlines()[:1]}})
+        ctx.found_violation_for_broken = True
+    if not ctx.translated:
+        return
+    ok, cout = c.coq_eval("c09_registry", REGISTRY_EVAL % ";\n".join(
+        "(%d, [%s], (%d, %d))" % (i, ";".join(str(x) for x in b), obs[i][0], obs[i][1]) for i, b in enumerate(inputs)))
+    if not ok:
+        c.fail_obligation("cases-eval registry", cout[-1500:])
+        return
+    corr_bad = pairs(cout, "corr_bad") or []
+    c.coverage["registry"]["correspondence_disagreements"] = len(corr_bad)
+    ctx.model_mon_bad_registry = [inputs[i].hex() for i, _ in (pairs(cout, "model_panics") or [])[:3]]
+    if corr_bad and not panics:
+        i, m = corr_bad[0]
+        c.fail_obligation("correspondence Model/Registry.v+Gen/Registry.v vs gcrypto.Registry.Unmarshal",
+                          "model outcome %d, real %s on input %s (%d differ)" % (m, obs[i], inputs[i].hex(), len(corr_bad)),
+                          {"sub": "registry", "input_hex": inputs[i].hex()})
+
+
 MODEL_OBS_DEF = """Definition fb_name (fb : N) : string :=
   match find (fun p => N.eqb (fst p) fb) names_Feedback with Some p => snd p | None => "?"%string end.
 Definition model_obs (r : res N) : option string :=
   match r with Ok fb => Some (fb_name fb) | Panic _ => None end.
 """
 
-SUBCHECKS = [sub_mappers, sub_options]
+SUBCHECKS = [sub_mappers, sub_options, sub_registry]
 
 
 def main(argv):
@@ -467,11 +558,12 @@ def main(argv):
     for sc in SUBCHECKS:
         sc(c, ctx)
     # 5. an obligation broke but no sub-check found a failing input on the implementation
-    if not ctx.proved and not any(v[3] for v in c.violations) and not c.known_seen:
+    if not ctx.proved and not any(v[3] for v in c.violations):
         b = getattr(c, "broken", {"file": "?", "log": ""})
         c.fail_obligation("Properties/C09.v (%s)" % b["file"], b["log"],
                           {"model_monitor_failures": {"mappers": getattr(ctx, "model_mon_bad_mappers", None),
-                                                      "options": getattr(ctx, "model_mon_bad_options", None)}})
+                                                      "options": getattr(ctx, "model_mon_bad_options", None),
+                                                      "registry": getattr(ctx, "model_mon_bad_registry", None)}})
     tot_eval = sum(v.get("evaluations", 0) for v in c.coverage.values() if isinstance(v, dict))
     tot_nt = sum(v.get("distinct_nontrivial", 0) for v in c.coverage.values() if isinstance(v, dict))
     tot_tr = sum(v.get("traces_validated_against_impl", 0) for v in c.coverage.values() if isinstance(v, dict))
